@@ -365,6 +365,52 @@ def oracle_selftest(rec):
     return not problems
 
 
+
+def structure_forms_item(item, rec):
+    """every alternative spelling / layout the structure JSON schema admits (read from the schema at run time): the caller's
+    dicts must come back untouched from semantic_analysis, run and validate_dataset"""
+    import copy
+    import json
+    import pandas as pd
+    V = harness.boot()
+    schema = json.load(open(os.path.join(harness.REPO, "src/vtlengine/API/data/schema/json_schema_2.1.json")))
+    roles = schema["$defs"]["role"]["enum"]
+    type_keys = [alt["required"][0] for alt in schema["$defs"]["component"]["oneOf"]]
+    for role in roles:
+        for tkey in type_keys:
+            for layout in ("inline", "shared-structure"):
+                for with_nullable in (True, False):
+                    comps = [{"name": "Id_1", "role": "Identifier", tkey: "Integer"}, {"name": "Me_1", "role": "Measure", tkey: "Number"},
+                             {"name": "X_1", "role": role, tkey: "String" if role != "Identifier" else "Integer", "description": "varied component"}]
+                    if with_nullable:
+                        for c in comps:
+                            c["nullable"] = c["role"] != "Identifier"
+                    if layout == "inline":
+                        ds = {"datasets": [{"name": "DS_1", "DataStructure": comps}]}
+                    else:
+                        ds = {"structures": [{"name": "STR_1", "components": comps}], "datasets": [{"name": "DS_1", "structure": "STR_1"}]}
+                    viral = "viral" in role.lower()
+                    script = ("define viral propagation VP (variable X_1) is aggregate max end viral propagation;\n" if viral else "") + "DS_r <- DS_1;"
+                    df = pd.DataFrame({"Id_1": [1, 2], "Me_1": [1.5, None], "X_1": ["a", "b"] if role != "Identifier" else [7, 8]})
+                    for fn, call in (("semantic_analysis", lambda d: V.semantic_analysis(script, d)),
+                                     ("run", lambda d: V.run(script, d, {"DS_1": df.copy()})),
+                                     ("validate_dataset", lambda d: V.validate_dataset(d, {"DS_1": df.copy()}))):
+                        before = copy.deepcopy(ds)
+                        out = harness.call(call, ds)
+                        same = ds == before and json.dumps(ds, sort_keys=False) == json.dumps(before, sort_keys=False)
+                        rec.case(("structure-form", fn, role, tkey, layout, with_nullable, out[0], same), "unchanged" if same else "mutated",
+                                 nontrivial=True, sample={"fn": fn, "data_structures": before} if role == roles[-1] else None)
+                        rec.count("structure_form_calls")
+                        if out[0] != "ok":
+                            rec.count("structure_form_calls_failed")
+                        if not same:
+                            rec.violation("C22:%s:structure-dict:role-spelling=%s:dict-rewritten" % (fn, role.replace(" ", "_")),
+                                          "%s(...) with data_structures given as a dict (role %r, key %r, %s layout) changed the caller's dict: %s -> %s" % (
+                                              fn, role, tkey, layout, json.dumps(before)[:200], json.dumps(ds)[:200]),
+                                          {"structure_form": [role, tkey, layout, with_nullable]})
+                        ds = copy.deepcopy(before)
+
+
 class Check:
     ID = "C22"
     LEVEL = "exploration"
@@ -415,6 +461,9 @@ class Check:
             harness.pmap(_work, items, rec)      # in this order: the recorded corpus calls, then the rest of the product
             if not corpus_cases:
                 rec.tool_error("the corpus index gave no call to re-execute")
+        harness.pmap(structure_forms_item, [0], rec)
+        if rec.counters.get("structure_form_calls_failed", 0) * 2 > rec.counters.get("structure_form_calls", 1):
+            rec.tool_error("most structure-form calls fail: the structure-form space is not exercised")
         cases = first + corpus_cases + rest
         skipped = rec.counters.get("cases_skipped_budget", 0)
         done = sum(v for k, v in rec.counters.items() if k.startswith(("calls:", "corpus_calls:")))
@@ -447,6 +496,10 @@ class Check:
 
     def replay(self, data):
         harness.boot()
+        if "structure_form" in data:
+            rec = harness.Recorder()
+            structure_forms_item(0, rec)
+            return bool(rec.violations)
         c = data["case"]
         wd = os.path.join(harness.scratch(), "c22", "replay")
         shutil.rmtree(wd, ignore_errors=True)
